@@ -217,6 +217,7 @@ PROPS = {
         "closure": ['AutosarVerif.Properties.C12', 'AutosarVerif.Lemmas.Lexer', 'AutosarVerif.Lemmas.WorldOps'],
         "scenario": 'world',
         "scenario_args": ['--prop', 'C12'],
+        "extra_scenarios": [("conc", [])],
         "rule": 'all history kinds of the world scenario with catch_unwind around every request and a per-history watchdog; oracle: no answer is `panic`, `timeout` or `err ParentElementLocked`; handles are drawn from live, removed and foreign objects.',
         "trusted_base": ['hand model of element.rs / elementraw.rs / autosarmodel.rs (Model/World*.lean), tied by the correspondence run', 'harness/src/world.rs: interpreter, canonical dump, oracles, shrinking'],
         "assumptions": ['stack depth and real-time behaviour are outside the model'],
@@ -254,6 +255,32 @@ PROPS = {
         "rule": "random master models built through the API, split over 2-4 files at splittable points (shared and exclusive packages, permuted siblings, mixed versions, BSW containers), documents written by the scenario's own writer; ALL load orders; oracles: union = master (after sort), attribution = split, per-file serialize/reload, order independence, conflicting files rejected with no effect, remove_file exactness.",
         "trusted_base": ['harness/src/merge.rs'],
         "assumptions": ['the merge algorithm itself has no Lean model; the Lean side proves properties of effective file membership'],
+        "timeout": 3600,
+    },
+    "C15": {
+        "compare_with_model": False,
+        "property_module": "AutosarVerif.Properties.C15",
+        "modules": ["AutosarVerif.Properties.C15"],
+        "closure": ['AutosarVerif.Properties.C15', 'AutosarVerif.Lemmas.LocksOrder'],
+        "scenario": "conc",
+        "scenario_args": [],
+        "rule": 'fixture: a model with 2 files, packages, elements and references; 24 operations (readers: serialize a/b, path, elements_dfs, check_references, lookups, identifiable_elements; writers: create_named, remove, set_item_name, move, set_character_data, set_reference_target, set_comment, set_attribute, create_file, remove_file, load_buffer, sort). Lock programs of every operation are recorded single-threaded (hook H2 record mode). Pairs (quick: 118 seeded pairs incl. every writer x writer on shared data; thorough: all 442 ordered pairs and 40 triples) run under the deterministic scheduler over all interleavings with <= 2 (thorough 3) preemptions plus random schedules; oracle C15: the scheduler never finds all threads blocked; oracle C16: return values and final canonical dump equal one of the serial orders, ParentElementLocked means no effect, invariants hold at the end; deadlocking pairs are re-run on two real threads in a child process with a watchdog. Non-trivial = distinct (pair, schedule).',
+        "trusted_base": ["hook H2 (autosar-data/src/verif_lock.rs): lock shim with record mode and a deterministic cooperative scheduler; its lock model (readers/writer, waiting writer blocks new readers, timed try = immediate) is the same as Model/Locks.lean",
+                         "harness/src/conc.rs: fixture, operation set, schedule enumeration, serial-order comparison, real-thread confirmation in child processes"],
+        "assumptions": ["interleavings are explored at lock-acquisition granularity up to the stated preemption bound; OS scheduling, parking_lot internals and the 10 ms time-out are outside the model"],
+        "timeout": 3600,
+    },
+    "C16": {
+        "compare_with_model": False,
+        "property_module": "AutosarVerif.Properties.C16",
+        "modules": ["AutosarVerif.Properties.C16"],
+        "closure": ['AutosarVerif.Properties.C16', 'AutosarVerif.Lemmas.LocksOrder'],
+        "scenario": "conc",
+        "scenario_args": [],
+        "rule": 'fixture: a model with 2 files, packages, elements and references; 24 operations (readers: serialize a/b, path, elements_dfs, check_references, lookups, identifiable_elements; writers: create_named, remove, set_item_name, move, set_character_data, set_reference_target, set_comment, set_attribute, create_file, remove_file, load_buffer, sort). Lock programs of every operation are recorded single-threaded (hook H2 record mode). Pairs (quick: 118 seeded pairs incl. every writer x writer on shared data; thorough: all 442 ordered pairs and 40 triples) run under the deterministic scheduler over all interleavings with <= 2 (thorough 3) preemptions plus random schedules; oracle C15: the scheduler never finds all threads blocked; oracle C16: return values and final canonical dump equal one of the serial orders, ParentElementLocked means no effect, invariants hold at the end; deadlocking pairs are re-run on two real threads in a child process with a watchdog. Non-trivial = distinct (pair, schedule).',
+        "trusted_base": ["hook H2 (autosar-data/src/verif_lock.rs): lock shim with record mode and a deterministic cooperative scheduler; its lock model (readers/writer, waiting writer blocks new readers, timed try = immediate) is the same as Model/Locks.lean",
+                         "harness/src/conc.rs: fixture, operation set, schedule enumeration, serial-order comparison, real-thread confirmation in child processes"],
+        "assumptions": ["interleavings are explored at lock-acquisition granularity up to the stated preemption bound; OS scheduling, parking_lot internals and the 10 ms time-out are outside the model"],
         "timeout": 3600,
     },
     "C20": {
